@@ -326,6 +326,11 @@ func c12RunCase(x *h.Ctx, c c12Case) {
 		x.Class("undecided:" + undecidedWhy)
 	} else if exists {
 		x.Class("ref:complete-selection-exists")
+		for _, r := range ref.Reqs {
+			if len(r.FromNested) >= 2 && r.Rule == "pick" && ((r.Count != nil && *r.Count >= 2) || (r.Min != nil && *r.Min >= 2)) {
+				x.Class("ref:complete-selection-needs>=2-nested-requirements")
+			}
+		}
 	} else {
 		x.Class("ref:no-complete-selection")
 	}
@@ -418,10 +423,10 @@ func c12RunCase(x *h.Ctx, c c12Case) {
 		// everything downstream (Validate, extracted fields, forgeries) would only report consequences
 		return
 	} else if decided && !exists {
-		x.Violate("O3-match-without-complete-selection:"+c12ReqKind(ref), "Match succeeded (mappings %s) but the reference finds no complete selection (available descriptors %v)", c12MapStr(mappings), c12Keys(avail))
+		x.Violate("O3-match-without-complete-selection:"+c12UnmetReqKind(ref, avail), "Match succeeded (mappings %s) but the reference finds no complete selection (available descriptors %v)", c12MapStr(mappings), c12Keys(avail))
 	} else if !errOK {
 		if ex, dec, _ := ref.complete(covered); dec && !ex {
-			x.Violate("O3-partial-selection:"+c12ReqKind(ref), "Match succeeded with mappings %s, but the selected credentials do not fulfil the definition (descriptors satisfied by the selection: %v)", c12MapStr(mappings), c12Keys(covered))
+			x.Violate("O3-partial-selection:"+c12UnmetReqKind(ref, covered), "Match succeeded with mappings %s, but the selected credentials do not fulfil the definition (descriptors satisfied by the selection: %v)", c12MapStr(mappings), c12Keys(covered))
 		}
 	}
 	// O1-cap: more credentials than count/max allow
@@ -834,6 +839,48 @@ func c12ReqKind(ref *c12RefDef) string {
 	return strings.Join(c12Keys(feat), "+")
 }
 
+// c12OneReqKind names one requirement by its own features (not its children's).
+func c12OneReqKind(r *c12RefReq) string {
+	k := r.Rule
+	if r.Rule == "pick" {
+		switch {
+		case r.Count != nil:
+			k += "-count"
+		case r.Min != nil && r.Max != nil:
+			k += "-min-max"
+		case r.Min != nil:
+			k += "-min"
+		case r.Max != nil:
+			k += "-max"
+		default:
+			k += "-bare"
+		}
+	}
+	if len(r.FromNested) > 0 {
+		k += "-over-nested"
+	}
+	return k
+}
+
+// c12UnmetReqKind: the first top-level requirement the given descriptor availability does not fulfil (one root cause,
+// one signature: the features of unrelated requirements stay out of it).
+func c12UnmetReqKind(ref *c12RefDef, avail map[string]bool) string {
+	if len(ref.Reqs) == 0 {
+		return "basic"
+	}
+	for _, r := range ref.Reqs {
+		if o := ref.evalReq(r, avail, false); !o.sat {
+			return c12OneReqKind(r)
+		}
+	}
+	for _, r := range ref.Reqs {
+		if o := ref.evalReq(r, avail, true); !o.sat {
+			return c12OneReqKind(r)
+		}
+	}
+	return "?"
+}
+
 func c12ReqClasses(x *h.Ctx, reqs []*c12RefReq, depth int) {
 	for _, r := range reqs {
 		k := "req:" + r.Rule
@@ -856,6 +903,13 @@ func c12ReqClasses(x *h.Ctx, reqs []*c12RefReq, depth int) {
 		x.Class(k)
 		if r.Max != nil && *r.Max == 0 {
 			x.Class("req:max-zero")
+		}
+		if len(r.FromNested) > 0 && r.Rule == "pick" {
+			for _, bnd := range []*int{r.Count, r.Min, r.Max} {
+				if bnd != nil && *bnd >= 2 {
+					x.Class("req:pick-bound>=2-over-nested")
+				}
+			}
 		}
 		if len(r.FromNested) > 0 {
 			x.Classf("req:nested-depth>=%d", depth+1)
